@@ -153,7 +153,7 @@ def rule_bp1(prog, funcs):
                         PROP, 'R-BP-1', I.where(v.node, f.module), f.short(),
                         'raise:%s:%s' % (f.name, c.name if c else '?'),
                         '%s rejects an expression with %s, not SyntaxError'
-                        % (f.short(), c.name if c else v.exc)))
+                        % (f.short(), c.name if c else v.exc)), witness=v)
                 else:
                     r.ok()
                 continue
